@@ -116,6 +116,15 @@ struct KeyModel {
     uint64_t hash(const State& s) const { return (uint64_t)s; }
 };
 
+static const char* HIST_FORMAT = "[thread, operation, uid offered (insert) or held (erase by accessor), result, uid of the element seen (0 = not seen), call stamp, return stamp]";
+static std::string hist_json(std::vector<Op> ops, bool ns) {
+    std::sort(ops.begin(), ops.end(), [](const Op& x, const Op& y) { return x.call < y.call; });
+    uint64_t t0 = ops.empty() ? 0 : ops[0].call;
+    Json j; j.arr();
+    for (auto& o : ops) { j.arr(); j.val(o.thread); j.val(kind_name[o.kind]); j.val(o.arg); j.val((o.res & 1) != 0); j.val(o.res >> 1); j.val((unsigned long long)(ns ? o.call - t0 : o.call)); j.val((unsigned long long)(ns ? o.ret - 2000 - t0 : o.ret)); j.end_arr(); }
+    j.end_arr(); return j.s;
+}
+
 struct OpSpec { int kind; int key; int hold; int pre; bool erase_after; bool via_find; long uid; };
 
 struct Clock {                       // seq: one global seq_cst counter; ns: CLOCK_MONOTONIC, A precedes B only if A.ret + 2us < B.call
@@ -426,7 +435,7 @@ int main(int argc, char** argv) {
                 std::string key = "c10.lin.not-linearizable";
                 if (ins_ok - er_ok != 0 && ins_ok - er_ok != 1) key = "c10.lin.insert-erase-imbalance";
                 else if (check_linearizable(model, conc, 2000000) == Lin::OK) key = "c10.lin.final-state-mismatch";
-                Json j; j.obj(); j.key("scenario").raw(s.describe()); j.kv("key", k); j.kv("hash", (unsigned long long)s.tab[k]); j.kv("format", "[thread, op, uid offered/held, (uid seen<<1)|result, call, return]"); j.key("history").raw(history_json(h, kind_name)); j.end_obj();
+                Json j; j.obj(); j.key("scenario").raw(s.describe()); j.kv("key", k); j.kv("hash", (unsigned long long)s.tab[k]); j.kv("format", HIST_FORMAT); j.kv("clock", s.ns_clock ? "ns since first call (A precedes B only if A.return + 2000 < B.call)" : "global sequence counter"); j.key("history").raw(hist_json(h, s.ns_clock)); j.end_obj();
                 fail(key, "history of key " + std::to_string(k) + " (" + std::to_string(h.size()) + " operations, successful inserts " + std::to_string(ins_ok) + ", successful erases " + std::to_string(er_ok) + ") has no linearization; buckets " + std::to_string(buckets0) + " -> " + std::to_string(buckets1) + " ##" + j.s);
             }
         }
@@ -452,9 +461,10 @@ int main(int argc, char** argv) {
             if (R.violations_total <= 5) R.write();      // a broken map often crashes a little later: keep what was seen
         } else if (R.want_sample() && sample_ov >= 3 && buckets1 != buckets0) {
             Json j; j.obj(); j.kv("threads", s.nthreads); j.kv("hash", hash_name[s.mode]); j.kv("prefill", s.prefill); j.kv("buckets_before", (unsigned long long)buckets0); j.kv("buckets_after", (unsigned long long)buckets1);
-            j.kv("key", sample_key); j.kv("key_hash", (unsigned long long)s.tab[sample_key]); j.kv("overlapping_pairs", sample_ov); j.kv("clock", s.ns_clock ? "ns" : "seq");
-            j.kv("format", "[thread, op, uid offered/held, (uid seen<<1)|result, call, return]");
-            j.key("history").raw(history_json(hist[sample_key], kind_name)); j.end_obj(); R.sample(j.s);
+            j.kv("key", sample_key); j.kv("key_hash", (unsigned long long)s.tab[sample_key]); j.kv("overlapping_pairs", sample_ov);
+            j.kv("clock", s.ns_clock ? "ns since first call (A precedes B only if A.return + 2000 < B.call)" : "global sequence counter");
+            j.kv("format", HIST_FORMAT);
+            j.key("history").raw(hist_json(hist[sample_key], s.ns_clock)); j.end_obj(); R.sample(j.s);
         }
         progress();
     }
